@@ -1,0 +1,51 @@
+//! Verification hooks. Compiled only with `--cfg fe2o3_amqp_verif`; with the flag off
+//! this module and every call into it do not exist.
+//!
+//! `preempt(label)` marks a point inside what is otherwise one uninterrupted poll of a
+//! task. An external harness can install a thread-local callback that decides, per call,
+//! whether the task runs on (0), is re-queued behind the currently runnable tasks (1), or
+//! is parked until every other task is blocked (2). This stands for "another worker
+//! thread of a multi-thread runtime ran in this window".
+
+use std::cell::RefCell;
+
+type Hook = Box<dyn FnMut(&'static str) -> u8>;
+
+thread_local! {
+    static PREEMPT: RefCell<Option<Hook>> = const { RefCell::new(None) };
+}
+
+/// Install the preempt callback for the current thread
+pub fn set_preempt_hook(hook: Hook) {
+    PREEMPT.with(|h| *h.borrow_mut() = Some(hook));
+}
+
+/// Remove the preempt callback of the current thread
+pub fn clear_preempt_hook() {
+    let _ = PREEMPT.try_with(|h| {
+        if let Ok(mut g) = h.try_borrow_mut() {
+            *g = None;
+        }
+    });
+}
+
+fn ask(label: &'static str) -> u8 {
+    PREEMPT
+        .try_with(|h| match h.try_borrow_mut() {
+            Ok(mut g) => match g.as_mut() {
+                Some(f) => f(label),
+                None => 0,
+            },
+            Err(_) => 0,
+        })
+        .unwrap_or(0)
+}
+
+/// A marked preemption point
+pub async fn preempt(label: &'static str) {
+    match ask(label) {
+        0 => {}
+        1 => tokio::task::yield_now().await,
+        _ => tokio::time::sleep(std::time::Duration::from_nanos(1)).await,
+    }
+}
